@@ -34,9 +34,8 @@ TRUSTED = [
 
 SHAPES = [(True, True), (True, False), (False, True), (False, False)]
 
-# Experiment switch (never set by the registered command): the working tree's cencoding.c carries the C equivalent
-# of the proposed repair of _assemble_objects (notes/C15.md).  The check then ties the binary to the model of the
-# REPAIRED loop (Impl/CAssembleFixed.v) and expects the property on every cut; the .pyx staleness obligation is skipped.
+# VERIF_C15_REPAIRED=1 runs the stream that keeps the proposed .pyx repair validated (stage_pyx_repair) in the quick tier
+# too; the thorough tier always runs it.
 FX = os.environ.get("VERIF_C15_REPAIRED") == "1"
 
 
@@ -48,10 +47,11 @@ class Worker:
     """One subprocess running harness/c15_worker.py.  Every wait has a timeout: a worker that hangs is killed and
     the call returns {"crash": "timeout ..."} (an observation for the caller, never a hung check)."""
 
-    def __init__(self):
+    def __init__(self, repo=None):
         self.p = None
         self.crashes = 0
         self.buf = b""
+        self.repo = repo or C.REPO
 
     def _readline(self, timeout):
         import select
@@ -84,7 +84,7 @@ class Worker:
 
     def _start(self):
         env = dict(os.environ)
-        env["VERIF_REPO"] = C.REPO
+        env["VERIF_REPO"] = self.repo
         env["PYTHONDONTWRITEBYTECODE"] = "1"
         self.buf = b""
         self.p = subprocess.Popen([C.PY, "-m", "harness.c15_worker"], cwd=C.VERIF, env=env, bufsize=0,
@@ -313,9 +313,7 @@ def run(ctx):
     ctx.coq_file(os.path.join(C.COQ, "props", "C15.v"))
     bad = C.hygiene()
     ctx.obligation("hygiene: no Admitted/Axiom/Parameter/... in coq/", not bad, "; ".join(bad))
-    stale = [] if FX else stale_assemble()
-    if FX:
-        ctx.notes.append("VERIF_C15_REPAIRED=1: model of the proposed repair, staleness obligation skipped")
+    stale = stale_assemble()
     ctx.obligation("cencoding.pyx _assemble_objects is the source embedded in cencoding.c (DESIGN 4.5)", not stale,
                    "source and compiled code differ; the property is shown for the compiled code only: %r" % (stale[:5],))
     if not ctx.quick():
@@ -345,11 +343,12 @@ def run(ctx):
         stage_struct_levels(ctx, pq, w)
         stage_refusal(ctx, pq, w)
         stage_py_dict(ctx, pq)
-        if not FX:
-            stage_fixtures(ctx, pq, w)
+        stage_fixtures(ctx, pq, w)
         stage_direct(ctx, pq, w)
         stage_files(ctx, pq, w)
         stage_hybrid_spec(ctx, pq)
+        if FX or not ctx.quick():
+            stage_pyx_repair(ctx, pq)
     finally:
         pq.close()
         w.close()
@@ -471,6 +470,121 @@ def stage_struct_levels(ctx, pq, w):
                     ctx.correspondence("nested_levels ~ core._nested_levels", {**case, "leaf": leaf["which"]},
                                        [bool(int(m[0])), [int(x) for x in m[1]], int(m[2]), "uint8", True],
                                        [r["null"], r["defi_out"], r["max_def_out"], r["dtype"], r["none_passthrough"]])
+
+
+# ---- H: the proposed .pyx repair stays validated (thorough tier / VERIF_C15_REPAIRED=1) ------------------
+
+PYX_PATCH = [
+    ("        __pyx_t_1 = (__pyx_v_vali > 0);\n",
+     "        __pyx_t_1 = (PyList_GET_SIZE(__pyx_v_part) > 0);   /* repair: if part: */\n"),
+    ("  /*else*/ {\n    __pyx_t_7 = (__pyx_v_i - 1);\n    __pyx_t_9 = (PyObject *) *((PyObject * *) ( /* dim=0 */ (__pyx_v_assign.data + __pyx_t_7 * __pyx_v_assign.strides[0]) ));",
+     "  /*else*/ { if (PyList_GET_SIZE(__pyx_v_part) > 0) {   /* repair: if part: */\n    __pyx_t_7 = (__pyx_v_i - 1);\n    __pyx_t_9 = (PyObject *) *((PyObject * *) ( /* dim=0 */ (__pyx_v_assign.data + __pyx_t_7 * __pyx_v_assign.strides[0]) ));"),
+    ("    __Pyx_DECREF(__pyx_t_2); __pyx_t_2 = 0;\n  }\n  __pyx_L12:;",
+     "    __Pyx_DECREF(__pyx_t_2); __pyx_t_2 = 0;\n  } __pyx_v_i = (__pyx_v_i - 1);   /* repair: return i - 1 */\n  }\n  __pyx_L12:;"),
+]
+
+
+def stage_pyx_repair(ctx, pq):
+    """notes/C15.md proposes a patch of cencoding.pyx _assemble_objects (`if part:` instead of `if vali > 0:`; a page
+    that starts no row returns i - 1).  It cannot be compiled from the .pyx here, so its C equivalent is applied to a
+    scratch copy of the generated cencoding.c, built, and tied to the model of the repaired loop (Impl/CAssembleFixed.v,
+    C15_pages_full_repaired): single calls with arbitrary state, and the OLD read_col call shape (row_idx = 1 + returned,
+    every page handed to the function) over every cut of the lattice must give the rows."""
+    import shutil
+    root = os.path.join(ctx.scratch, "repo_pyx_repair")
+    shutil.copytree(os.path.join(C.REPO, "fastparquet"), os.path.join(root, "fastparquet"),
+                    ignore=shutil.ignore_patterns("*.so", "__pycache__", "test"))
+    cpath = os.path.join(root, "fastparquet", "cencoding.c")
+    src = open(cpath).read()
+    for old, new in PYX_PATCH:
+        if src.count(old) != 1:
+            ctx.extra["proposed_pyx_repair"] = "skipped: the generated cencoding.c no longer has the expected text"
+            return
+        src = src.replace(old, new, 1)
+    open(cpath, "w").write(src)
+    w = Worker(repo=root)
+    rng = ctx.rng
+    bad = []
+    try:
+        n1 = 1500
+        tasks, cmds, cases = [], [], []
+        for _ in range(n1):
+            task, args, case = gen_single_call(rng)
+            tasks.append(task), cmds.append(("assemble_page_fx",) + args), cases.append(case)
+        outs = pq.batch(cmds)
+        agree1 = 0
+        for task, case, mo in zip(tasks, cases, outs):
+            res = w.call(task)
+            m = m_result(mo)
+            if "crash" in res:
+                bad.append({"single": case, "got": "process died"})
+                continue
+            if m[0] == "ok":
+                want = [m_rows_back(m[1][0]), m[1][1]]
+                got = [res["arr"], res["ret"] + 1] if (res.get("exc") is None and not res.get("oob_written")) else ["exc/oob", res.get("exc"), res.get("oob_written")]
+            else:
+                want, got = cmp_direct(m, res, case["n"])
+            if want == got:
+                agree1 += 1
+            else:
+                bad.append({"single": case, "model": want, "patched binary": got})
+        # old read_col call shape over every cut
+        nseq = okseq = 0
+        bases = lattice_bases()
+        for ro, eo in SHAPES:
+            _, _, max_def = NF.levels_of_shape(ro, eo)
+            for rows in bases[(ro, eo)]:
+                rep, de, vals = NF.shred(rows, ro, eo)
+                L = len(rep)
+                for cuts in [[]] + [[a] for a in range(1, L)] + [[a, b] for a in range(1, L) for b in range(a + 1, L)]:
+                    pages = NF.chunk_pages(rep, de, vals, max_def, cuts)
+                    vt = VTable()
+                    task = {"op": "seq", "mode": "v1", "n": len(rows), "guard": L + 4, "arr": None, "null": ro, "max_defi": max_def,
+                            "pages": [{"rep": p[0], "def": (None if all(d == max_def for d in p[1]) else p[1]),
+                                       "vals": [vt.idx(x) for x in p[2]], "num_rows": p[3]} for p in pages]}
+                    res = w.call(task)
+                    want_rows = [None if r is None else [None if e is None else vt.idx(e) for e in r] for r in rows]
+                    nseq += 1
+                    if res.get("exc") is None and not res.get("oob_written") and res.get("arr") == want_rows:
+                        okseq += 1
+                    else:
+                        bad.append({"rows": rows, "cuts": cuts, "patched binary": res})
+    finally:
+        w.close()
+    ctx.extra["proposed_pyx_repair"] = {"single_calls_agree_with_repaired_model": "%d/%d" % (agree1, n1),
+                                        "old_read_col_call_shape_every_cut_gives_rows": "%d/%d" % (okseq, nseq),
+                                        "first_disagreements": bad[:3]}
+    ctx.obligation("proposed .pyx repair: the C equivalent built from a scratch cencoding.c agrees with Impl/CAssembleFixed.v and assembles every cut",
+                   not bad, json.dumps(bad[:3], default=repr)[:1500])
+
+
+def gen_single_call(rng):
+    """one call of _assemble_objects with arbitrary array state / prev_i / levels (ill-formed included)"""
+    n = rng.randint(1, 4)
+    null = rng.random() < 0.5
+    max_defi = rng.choice([1, 2, 2, 3, 3])
+    arr = []
+    for _k in range(n):
+        x = rng.random()
+        arr.append(None if x < 0.35 else [rng.choice([None, 1, 2, 3]) for _j in range(rng.randint(0, 3))])
+    prev_i = rng.choice([0, 0, 1, 1, 2, n, n + 1])
+    ne = rng.choice([0, 1, 1, 2, 3, 4, 5, 8])
+    rep = [0 if rng.random() < 0.45 else 1 for _k in range(ne)]
+    if rng.random() < 0.6 and ne and prev_i == 0:
+        rep[0] = 0
+    de = [rng.randint(0, max_defi) if rng.random() < 0.8 else max_defi for _k in range(ne)]
+    nv = sum(1 for d in de if d == max_defi)
+    vals = [rng.randint(0, 9) for _k in range(nv)]
+    if vals and rng.random() < 0.07:
+        vals = vals[:-1]                    # one value short: IndexError expected
+    defi = None if (ne and all(d == max_defi for d in de) and rng.random() < 0.7) else de
+    task = {"op": "seq", "mode": "one", "n": n, "guard": ne + 4, "arr": arr, "null": null, "max_defi": max_defi,
+            "prev_i": prev_i, "pages": [{"rep": rep, "def": defi, "vals": vals}]}
+    m_arr = [None if r is None else [[None if e is None else [e] for e in r]] for r in arr]
+    args = (null, max_defi, m_arr, prev_i, [[[r, d] for r, d in zip(rep, de)], vals])
+    case = {"stage": "direct-one", "n": n, "null": null, "max_defi": max_defi, "arr": arr, "prev_i": prev_i,
+            "rep": rep, "def": de, "defi_none": defi is None, "vals": vals}
+    return task, args, case
 
 
 # ---- G: Python's dict(pairs) against the model py_dict ---------------------------------------------
@@ -674,32 +788,10 @@ def stage_direct(ctx, pq, w):
     n1 = 1000 if ctx.quick() else 20000
     tasks, cmds, cases = [], [], []
     for _ in range(n1):
-        n = rng.randint(1, 4)
-        null = rng.random() < 0.5
-        max_defi = rng.choice([1, 2, 2, 3, 3])
-        arr = []
-        for _k in range(n):
-            x = rng.random()
-            arr.append(None if x < 0.35 else [rng.choice([None, 1, 2, 3]) for _j in range(rng.randint(0, 3))])
-        prev_i = rng.choice([0, 0, 1, 1, 2, n, n + 1])
-        ne = rng.choice([0, 1, 1, 2, 3, 4, 5, 8])
-        rep = [0 if rng.random() < 0.45 else 1 for _k in range(ne)]
-        if rng.random() < 0.6 and ne and prev_i == 0:
-            rep[0] = 0
-        de = [rng.randint(0, max_defi) if rng.random() < 0.8 else max_defi for _k in range(ne)]
-        nv = sum(1 for d in de if d == max_defi)
-        vals = [rng.randint(0, 9) for _k in range(nv)]
-        if vals and rng.random() < 0.07:
-            vals = vals[:-1]                    # one value short: IndexError expected
-        defi = None if (ne and all(d == max_defi for d in de) and rng.random() < 0.7) else de
-        g = ne + 4
-        task = {"op": "seq", "mode": "one", "n": n, "guard": g, "arr": arr, "null": null, "max_defi": max_defi,
-                "prev_i": prev_i, "pages": [{"rep": rep, "def": defi, "vals": vals}]}
-        m_arr = [None if r is None else [[None if e is None else [e] for e in r]] for r in arr]
-        cmds.append(("assemble_page_fx" if FX else "assemble_page", null, max_defi, m_arr, prev_i, [[[r, d] for r, d in zip(rep, de)], vals]))
+        task, args, case = gen_single_call(rng)
+        cmds.append(("assemble_page",) + args)
         tasks.append(task)
-        cases.append({"stage": "direct-one", "n": n, "null": null, "max_defi": max_defi, "arr": arr, "prev_i": prev_i,
-                      "rep": rep, "def": de, "defi_none": defi is None, "vals": vals})
+        cases.append(case)
     outs = pq.batch(cmds)
     for task, case, mo in zip(tasks, cases, outs):
         res = w.call(task)
@@ -712,7 +804,7 @@ def stage_direct(ctx, pq, w):
         if m[0] == "ok":
             want = [m_rows_back(m[1][0]), m[1][1]]
             # the repaired model returns what read_col stores (1 + the returned int, which may be -1)
-            got = [res["arr"], res["ret"] + (1 if FX else 0)] if (res.get("exc") is None and not res.get("oob_written")) else \
+            got = [res["arr"], res["ret"]] if (res.get("exc") is None and not res.get("oob_written")) else \
                   ["exc/oob", res.get("exc"), res.get("oob_written")]
         else:
             want, got = cmp_direct(m, res, case["n"])
@@ -751,7 +843,7 @@ def stage_direct(ctx, pq, w):
         vt = VTable()
         mp = [m_page(r, d, vv, vt) for (r, d, vv, _) in pages]
         if v == 1:
-            cmds.append(("run_v1_fx" if FX else "run_v1", ro, eo, len(rows), mp))
+            cmds.append(("run_v1", ro, eo, len(rows), mp))
         else:
             cmds.append(("run_v2", False, ro, eo, len(rows), [[p, nr] for p, (_, _, _, nr) in zip(mp, pages)]))
         cmds.append(("shred", ro, eo, m_rows(rows, vt)))
@@ -781,9 +873,7 @@ def stage_direct(ctx, pq, w):
             # hypotheses of C15_v2_pages_whole
             ctx.correspondence("Coq pages_aligned/v2_cut_ok (hypotheses of C15_v2_pages_whole) hold for the v2 pages generated", case,
                                guard, [True, True])
-        if FX:
-            classes = []            # the repaired loop has no bad cuts (C15_pages_full_repaired)
-        elif v == 1:
+        if v == 1:
             # the harness classifier of known-bad splits is the complement of the theorem's guard
             ctx.correspondence("Coq pages_aligned/good_split (hypotheses of C15_pages_partial) ~ harness split classifier", case,
                                guard, [True, not classes])
